@@ -225,3 +225,19 @@ def history(draw, classes=('DynGraph', 'DynDiGraph'), removal=(True,), kinds=Non
         ops.append(op)
         apply_model(model, dn_nodes, op)
     return {"cls": cls, "removal": rem, "nodes": nodes, "ops": ops}
+
+
+def tiered(tier, **kw):
+    """history(**kw) in the quick tier; in the thorough tier half of the cases come from the same
+    strategy and half from a larger one (twice the calls, twice the instant range, up to 8 nodes,
+    longer spans), so that depth grows without thinning out the small, collision-rich cases."""
+    small = history(**kw)
+    if tier != 'thorough':
+        return small
+    big = dict(kw)
+    big['max_ops'] = min(28, 2 * kw.get('max_ops', 12))
+    big['horizon'] = 2 * kw.get('horizon', 10)
+    lo, hi = kw.get('uni', (3, 6))
+    big['uni'] = (lo, min(8, hi + 2))
+    big['maxlen'] = kw.get('maxlen', 4) + 2
+    return st.one_of(small, history(**big))
